@@ -93,7 +93,12 @@ fn extra_files(b: &Bld, windows_only: bool) -> (String, String) {
                 // obstruction factors 0.75, 0.70, 0.65 ... differ from window to window
                 k += 1;
                 let h3 = 60000.0 - 4000.0 * ((k % 8) as f32);
-                kyg.push(format!("\"{}\"; 180.000000; 1.000000; 80000.000000; 70000.000000; 60000.000000; {:.6}; 1000.000000", win.name, h3));
+                if (k + b.salt) % 7 == 3 {
+                    // a window that receives no radiation at all (HULC writes zeros): 0/0 in the reader
+                    kyg.push(format!("\"{}\"; 180.000000; 1.000000; 0.000000; 0.000000; 0.000000; 0.000000; 0.000000", win.name));
+                } else {
+                    kyg.push(format!("\"{}\"; 180.000000; 1.000000; 80000.000000; 70000.000000; 60000.000000; {:.6}; 1000.000000", win.name, h3));
+                }
             }
         }
     }
